@@ -22,7 +22,7 @@ import propkit
 import vlib
 
 MANIFEST = {
-  "text": "proof: over a transcription of forward.py's integration kernels and host code with an ABSTRACT forward(): semi-implicit Euler update (_advance: new velocity feeds the position update, time, warmstart), unit norm of every free/ball quaternion written by _next_position for every input, harmlessness of the in-place launch, rungekutta4 = classical RK4 with nodes (0,1/2,1/2,1) also for a time-dependent forward() (stage i evaluated at t0 + c_i h), stage-order facts on the regenerated host skeleton. NOT proved: forward() itself, the implicit linear solves / derivative content (C27, C06), float32 rounding - these are only tested by the lock-step oracle against mujoco.mj_step",
+  "text": "proof: over a transcription of forward.py's integration kernels and host code with an ABSTRACT forward(): semi-implicit Euler update (_advance: new velocity feeds the position update, time, warmstart), euler()'s implicit polynomial-damping derivative (kernels proved equal to their machine translation; value d + 2 p0 |v| + 3 p1 v^2, even in v, slope of the damper force on both sides of 0), unit norm of every free/ball quaternion written by _next_position for every input, harmlessness of the in-place launch, rungekutta4 = classical RK4 with nodes (0,1/2,1/2,1) also for a time-dependent forward() (stage i evaluated at t0 + c_i h), stage-order facts on the regenerated host skeleton. NOT proved: forward() itself, the implicit linear solves / derivative content (C27, C06), float32 rounding - these are only tested by the lock-step oracle against mujoco.mj_step",
   "note": "trusted: Coq kernel; translate.py (quat_integrate, validated in C23); extract_launch.py; hand transcription Model/Integrate.v (validated every run against the real kernels and host functions); binary64 model vs float32 kernels compared with tolerance 1e-4",
   "technique": "Rocq proof over hand model + T-translated quat_integrate, S facts by vm_compute, correspondence by vm_compute at binary64 vs real kernels / host functions, differential oracle vs MuJoCo C",
   "engine": "coq",
@@ -36,7 +36,8 @@ KEY_RKTIME = "C08:rk4:stage-time-not-advanced"
 # keys of findings that are still open in /repo (KEY_SIGN and KEY_RKTIME were repaired; their directed
 # witnesses stay as regression cases and count as NEW failing inputs if they fail again)
 KEY_BALLWRAP = "C08:forward-actuation:ball-joint-servo-error-wrap"
-CLASSIFIED = (KEY_FREE, KEY_BALLWRAP)
+KEY_RKACT = "C08:rk4:filterexact-stage-activation"
+CLASSIFIED = (KEY_FREE, KEY_BALLWRAP)  # KEY_RKACT was repaired in /repo: its witness stays as a regression case
 
 F = vlib.fhex
 FL = vlib.flist
@@ -245,6 +246,17 @@ def cases_rk_accumulate_time(rng, n):
     term = f"@accum float Sc {F(scale)} {FL(rv)} {FL(v)} ++ @accum float Sc {F(scale)} {FL(ra)} {FL(a)} ++ @accum float Sc {F(scale)} {FL(rv)} {FL(a)}"
     lines.append(f"tv3 0x1p-13 (fun Sc => {term}) {FL(exp)}")
     meta.append({"kernel": "_rk_accumulate_*", "scale": float(scale), "impl": exp.tolist()})
+  # _rk_perturb_activation: act_t0 + scale * act_dot * timestep
+  for c in range(max(6, n // 3)):
+    na = int(rng.integers(1, 6))
+    h = np.float32(10.0 ** rng.uniform(-3, -1))
+    sc = np.float32([0.5, 1.0, rng.uniform(-1, 2)][c % 3])
+    a0, ad = _rand_state(rng, na, 0.7), _rand_state(rng, na, 10.0 ** rng.uniform(-1, 2))
+    wo = wp.array(_rand_state(rng, na).reshape(1, na), dtype=float)
+    wp.launch(fw._rk_perturb_activation, dim=(1, na), inputs=[wp.array([h], dtype=float), wp.array(a0.reshape(1, na), dtype=float), wp.array(ad.reshape(1, na), dtype=float), float(sc)], outputs=[wo])
+    exp = wo.numpy()[0].astype(np.float64)
+    lines.append(f"tv3 0x1p-13 (fun Sc => @rk_perturb_activation float Sc {F(h)} {FL(a0)} {FL(ad)} {F(sc)}) {FL(exp)}")
+    meta.append({"kernel": "_rk_perturb_activation", "h": float(h), "scale": float(sc), "act_t0": a0.tolist(), "act_dot": ad.tolist(), "impl": exp.tolist()})
   # _rk_stage_time: time_t0 + scale * timestep
   for c in range(max(4, n // 4)):
     h = np.float32(10.0 ** rng.uniform(-3, -1))
@@ -270,6 +282,39 @@ def cases_rk_accumulate_time(rng, n):
     exp = wt.numpy().astype(np.float64)
     lines.append(f"tv3 0x1p-18 (fun Sc => [@sadd float Sc {F(t)} {F(h)}]) {FL(exp)}")
     meta.append({"kernel": "_next_time", "t": float(t), "h": float(h), "impl": exp.tolist()})
+  return lines, meta
+
+
+def cases_euler_damping(rng, n):
+  """forward._compute_damping_deriv and forward._euler_damp_qfrc (euler()'s implicit damping matrix)."""
+  import warp as wp
+
+  from mujoco_warp._src import forward as fw
+
+  lines, meta = [], []
+  for c in range(n):
+    nv = int(rng.integers(1, 7))
+    damp = np.where(rng.random(nv) < 0.4, 0.0, rng.uniform(0.0, 2.0, nv)).astype(np.float32)  # linear part zero and non-zero
+    poly = (rng.uniform(-0.2, 2.0, (nv, 2)) * (rng.random((nv, 2)) < 0.8)).astype(np.float32)
+    v = (rng.standard_normal(nv) * 10.0 ** rng.uniform(-1, 2)).astype(np.float32)  # both signs, large |v|
+    if c % 5 == 0:
+      v = -np.abs(v)
+    out = wp.zeros((1, nv), dtype=float)
+    wp.launch(fw._compute_damping_deriv, dim=(1, nv), inputs=[wp.array(damp.reshape(1, nv), dtype=float), wp.array(poly.reshape(1, nv, 2), dtype=wp.vec2), wp.array(v.reshape(1, nv), dtype=float)], outputs=[out])
+    deriv = out.numpy()[0]
+    P = "[" + "; ".join(f"({F(a)}, {F(b)})" for a, b in poly) + "]"
+    lines.append(f"tv3 0x1p-13 (fun Sc => @compute_damping_deriv float Sc {FL(damp)} {P} {FL(v)}) {FL(deriv.astype(np.float64))}")
+    meta.append({"kernel": "_compute_damping_deriv", "damping": damp.tolist(), "dampingpoly": poly.tolist(), "qvel": v.tolist(), "impl": deriv.tolist()})
+    # CSR lower-triangular rows with random lengths; the kernel touches the last entry of each row
+    nnz = rng.integers(1, 4, nv)
+    adr = np.concatenate([[0], np.cumsum(nnz)[:-1]])
+    M0 = _rand_state(rng, int(nnz.sum()), 2.0)
+    h = np.float32(10.0 ** rng.uniform(-3, -1))
+    wM = wp.array(M0.reshape(1, -1), dtype=float)
+    wp.launch(fw._euler_damp_qfrc, dim=(1, nv), inputs=[wp.array([h], dtype=float), wp.array(nnz, dtype=int), wp.array(adr, dtype=int), wp.array(deriv.reshape(1, nv), dtype=float)], outputs=[wM])
+    exp = wM.numpy()[0].astype(np.float64)
+    lines.append(f"tv3 0x1p-13 (fun Sc => @euler_damp_qfrc float Sc {F(h)} {vlib.zlist(nnz)} {vlib.zlist(adr)} {FL(deriv)} {FL(M0)}) {FL(exp)}")
+    meta.append({"kernel": "_euler_damp_qfrc", "h": float(h), "rownnz": nnz.tolist(), "rowadr": adr.tolist(), "deriv": deriv.tolist(), "M": M0.tolist(), "impl": exp.tolist()})
   return lines, meta
 
 
@@ -394,7 +439,8 @@ def correspondence(res, quick):
     ("_next_position", cases_next_position, 120 * n),
     ("_next_velocity", cases_next_velocity, 40 * n),
     ("_next_activation", cases_next_activation, 120 * n),
-    ("_rk_accumulate/_rk_stage_time/_next_time", cases_rk_accumulate_time, 30 * n),
+    ("_rk_accumulate/_rk_perturb_activation/_rk_stage_time/_next_time", cases_rk_accumulate_time, 30 * n),
+    ("_compute_damping_deriv/_euler_damp_qfrc", cases_euler_damping, 30 * n),
     ("host _advance/euler/rungekutta4 with affine forward", cases_host, 32 * n),
   ]
   groups = []
@@ -586,6 +632,27 @@ def classify(m, name, d0, nsteps, fails, ctrl_seq=None):
       derivative.deriv_rne_vel = orig
     if st == "ok":
       return KEY_SIGN  # diagnosis only: the disagreement vanishes when the flag is flipped
+  if name == "rk4" and m.na and np.any(np.isin(m.actuator_dyntype, (3, 5, 7))):
+    # diagnosis only: does the disagreement vanish when the RK sub-stages perturb the activations by plain
+    # Euler (act_t0 + a h act_dot, what mj_RungeKutta does) instead of next_act's exact filter?
+    from mujoco_warp._src import forward as fw
+
+    orig_p = fw._rk_perturb_state
+
+    def plain(mm, dd, scale, qpos_t0, qvel_t0, act_t0=None):
+      ad = dd.act_dot.numpy().copy()
+      orig_p(mm, dd, scale, qpos_t0, qvel_t0, None)
+      if act_t0 is not None:
+        hh = mm.opt.timestep.numpy()[0]
+        dd.act.assign((act_t0.numpy() + np.float32(scale) * ad * hh).astype(np.float32))
+
+    try:
+      fw._rk_perturb_state = plain
+      st, _, _ = lockstep(m, d0, nsteps, ctrl_seq)
+    finally:
+      fw._rk_perturb_state = orig_p
+    if st == "ok":
+      return KEY_RKACT
   if name == "implicitfast":
     cf = childless_free_dofs(m)
     qv = [f for f in fails if f[0] == "qvel"]
@@ -645,8 +712,8 @@ def directed(res):
     out.append((classify(m, "euler", d0, 1, b), f"euler: position servo on a ball joint, ctrl=-0.5, length=6.13: {b[0][0]} differs from mujoco.mj_step by {b[0][1]:.3g} (bound {b[0][2]:.3g})", {"xml": xml, "integrator": "euler", "qpos0": d0["qpos"].tolist(), "qvel0": [0.0, 0.0, 0.0], "ctrl0": [-0.5], "steps": 1, "fails": [list(x[:3]) for x in b]}))
   else:
     res.nontrivial(("directed-agrees", KEY_BALLWRAP))
-  # saturated act-limited stateful actuators: the RK4 sub-stages must NOT clamp (limit=False in
-  # _rk_perturb_state, as mj_RungeKutta), the final _advance must; also actearly
+  # saturated act-limited stateful actuators: the RK4 sub-stages must NOT clamp (plain Euler in
+  # _rk_perturb_state / _rk_perturb_activation, as mj_RungeKutta), the final _advance must; also actearly
   ACTS = {
     "intvelocity": ('<intvelocity joint="j" kp="50" actrange="-0.5 0.5"/>', 0.5, 3.0),
     "integrator": ('<general joint="j" dyntype="integrator" gainprm="20" actlimited="true" actrange="-0.3 0.4"/>', 0.4, 5.0),
@@ -674,6 +741,32 @@ def directed(res):
           out.append((f"C08:directed:{integ}-actlimited-saturated:{b[0][0]}", f"{integ}, {nm} actuator saturated ({variant}): {b[0][0]} differs from mujoco.mj_step by {b[0][1]:.3g} (bound {b[0][2]:.3g}) at step {s}", {"xml": xml, "integrator": integ, "qpos0": [0.3], "qvel0": [0.5], "act0": [float(np.float32(a0))], "ctrl0": [c0], "steps": nst, "fails": [list(x[:3]) for x in b]}))
         elif st == "ok":
           res.nontrivial(("directed-actlimited", integ, nm, variant))
+  # RK4 with an exact-filter actuator: sub-stage activations (finding C08:rk4:filterexact-stage-activation)
+  xml = '<mujoco><option integrator="RK4" timestep="0.01" gravity="0 0 0"/><worldbody><body><joint name="j" type="hinge" damping="1"/><geom type="sphere" size=".1"/></body></worldbody><actuator><general joint="j" dyntype="filterexact" dynprm="0.03" gainprm="1"/></actuator></mujoco>'
+  m = mujoco.MjModel.from_xml_string(xml)
+  d0 = {"qpos": np.zeros(1), "qvel": np.zeros(1), "act": np.array([0.2]), "ctrl": np.array([1.0])}
+  st, s, b = lockstep(m, d0, 1)
+  res.count()
+  if st == "fail":
+    out.append((classify(m, "rk4", d0, 1, b), f"rk4 with dyntype=filterexact (tau=0.03, h=0.01): {b[0][0]} differs from mujoco.mj_step by {b[0][1]:.3g} (bound {b[0][2]:.3g})", {"xml": xml, "integrator": "rk4", "qpos0": [0.0], "qvel0": [0.0], "act0": [0.2], "ctrl0": [1.0], "steps": 1, "fails": [list(x[:3]) for x in b]}))
+  else:
+    res.nontrivial(("directed-agrees", KEY_RKACT))
+  # polynomial joint damping: euler()'s implicit-damping matrix M + h diag(d/dv damper force) uses |v|;
+  # both signs of velocity, large |v|, linear part zero and non-zero, all integrators, eulerdamp on
+  for integ in ("euler", "implicitfast", "implicit", "rk4"):
+    for dmp in ("0 0.8 0.3", "0.5 1.2 0", "0.2 0 0.4"):
+      for v0 in ((-3.0, -2.0), (3.0, 2.0), (-25.0, 15.0)):
+        xml = f'<mujoco><option timestep="0.004" gravity="0 0 -9.81"/><worldbody><body pos="0 0 1"><joint type="hinge" axis="0 1 0" damping="{dmp}"/><geom type="capsule" fromto="0 0 0 .3 0 0" size=".03" mass=".4"/><body pos=".3 0 0"><joint type="slide" axis="1 0 0" damping="{dmp}" stiffness="20"/><geom type="sphere" size=".05" mass=".2"/></body></body></worldbody></mujoco>'
+        m = mujoco.MjModel.from_xml_string(xml)
+        m.opt.integrator = INTS[integ]
+        d0 = {"qpos": np.array([0.2, 0.05]), "qvel": np.array(v0), "act": np.zeros(0), "ctrl": np.zeros(0)}
+        st, s, b = lockstep(m, d0, 2)
+        res.count()
+        if st == "fail":
+          sign = "negative-velocity" if v0[0] < 0 and v0[1] < 0 else ("positive-velocity" if v0[0] > 0 and v0[1] > 0 else "mixed-large-velocity")
+          out.append((f"C08:directed:{integ}-polynomial-damping:{sign}", f"{integ}, joint damping=\"{dmp}\", qvel0={v0}: {b[0][0]} differs from mujoco.mj_step by {b[0][1]:.3g} (bound {b[0][2]:.3g}) at step {s}", {"xml": xml, "integrator": integ, "qpos0": [0.2, 0.05], "qvel0": list(v0), "steps": 2, "fails": [list(x[:3]) for x in b]}))
+        elif st == "ok":
+          res.nontrivial(("directed-polydamp", integ, dmp, v0))
   # fluid medium x disable flags: the guard of implicit() (when is the implicit-in-velocity solve skipped?)
   # must follow MuJoCo for every combination of ACTUATION / SPRING / DAMPER (fluid forces are dropped only
   # when SPRING and DAMPER are both disabled)
@@ -748,6 +841,16 @@ def oracle(res, nper):
       if contacts:
         o.geom_types = ("sphere", "capsule", "box")  # analytic narrowphase only: no convex-collision tolerance in the way
       xml, _ = models.random_model(rng, o)
+      if k % 2 == 0:  # polynomial joint damping "d p0 p1": linear part zero or not, on half of the models
+        import re
+
+        def _poly(mt):
+          if rng.random() < 0.3:
+            return mt.group(0)
+          d = 0.0 if rng.random() < 0.4 else float(mt.group(1))
+          return f'damping="{d:.4g} {rng.uniform(0.05, 1.5):.4g} {rng.uniform(0.0, 0.5) * (rng.random() < 0.6):.4g}"'
+
+        xml = re.sub(r'damping="([0-9.eE+-]+)"', _poly, xml)
       m = mujoco.MjModel.from_xml_string(xml)
       m.opt.integrator = INTS[name]
       sat = []
@@ -783,7 +886,7 @@ def oracle(res, nper):
           res.sample({"kind": "oracle", "integrator": name, "eulerdamp_disabled": damp_off, "contacts": contacts, "nq": m.nq, "nv": m.nv, "na": m.na, "steps": nsteps, "xml": xml[:300]})
       elif st == "fail":
         key = classify(m, name, d0, nsteps, b)
-        found.append((key, f"{name}{' (eulerdamp off)' if damp_off else ''}{' with contacts' if contacts else ''}: mjw.step disagrees with mujoco.mj_step at step {s} in {b[0][0]} by {b[0][1]:.3g} (bound {b[0][2]:.3g})", {"xml": xml, "integrator": name, "eulerdamp_disabled": damp_off, "qpos0": d0["qpos"].tolist(), "qvel0": d0["qvel"].tolist(), "act0": d0["act"].tolist(), "ctrl0": d0["ctrl"].tolist(), "steps": nsteps, "fails": [list(x[:3]) for x in b]}))
+        found.append((key, f"{name}{' (eulerdamp off)' if damp_off else ''}{' with contacts' if contacts else ''}: mjw.step disagrees with mujoco.mj_step at step {s} in {b[0][0]} by {b[0][1]:.3g} (bound {b[0][2]:.3g})", {"xml": xml, "integrator": name, "eulerdamp_disabled": damp_off, "qpos0": d0["qpos"].tolist(), "qvel0": d0["qvel"].tolist(), "act0": d0["act"].tolist(), "ctrl0": d0["ctrl"].tolist(), "steps": nsteps, "actlimited": [int(x) for x in m.actuator_actlimited], "actrange": m.actuator_actrange.tolist(), "fails": [list(x[:3]) for x in b]}))
   res.extra["oracle"] = stats
   return found
 
@@ -845,6 +948,9 @@ def replay(res, path):
     m.opt.disableflags |= mujoco.mjtDisableBit.mjDSBL_EULERDAMP
   if r.get("disableflags"):
     m.opt.disableflags |= int(r["disableflags"])
+  if r.get("actlimited") is not None and m.nu:
+    m.actuator_actlimited[:] = r["actlimited"]
+    m.actuator_actrange[:] = r["actrange"]
   if "prefill_ctrl" in r:
     d = mujoco.MjData(m)
     for c in r["prefill_ctrl"]:
